@@ -1508,3 +1508,58 @@ func runC29x(c *Ctx) {
 	}
 	c.Check(len(bad) == 0 && n > 0, pkg+"#number-preserving-decoding", token.NoPos, fmt.Sprintf("%d decodes, all through jsonutil.DecodeWithNumber", n), fmt.Sprintf("configuration is decoded with encoding/json.Unmarshal (%v): numbers become float64 and are written back altered (9007199254740993 -> 9007199254740992)", bad))
 }
+
+// runC30y: the rule behind finding F13.
+func runC30y(c *Ctx) {
+	P := c.P
+	pkg := "overlord/registrystate"
+	c.Rule("C30-R7", "W+G", "updateDatabags writes back the map it read from the state, with the one databag added: the stored map is replaced by a fresh one only when there was none", 1)
+	ud := P.Func(pkg + ".updateDatabags")
+	stGet := P.FuncObj("overlord/state.(*State).Get")
+	var cell *ssa.Alloc
+	for _, cc := range CallSites(ud, stGet) {
+		if k, ok := ConstString(CallArgs(cc)[0]); ok && k == "registry-databags" {
+			if mi, ok := CallArgs(cc)[1].(*ssa.MakeInterface); ok {
+				cell, _ = mi.X.(*ssa.Alloc)
+			}
+		}
+	}
+	if cell == nil {
+		c.Undecided(pkg+".updateDatabags#map-read", ud.Pos(), "st.Get(\"registry-databags\", &databags) not found")
+		return
+	}
+	errIs := P.FuncObj("errors.Is")
+	noState := TrueRes("errors.Is(err, NoState)", true, 0, ToFn(errIs))
+	wasNil := Cmp("databags==nil", func(v ssa.Value) bool {
+		u, ok := v.(*ssa.UnOp)
+		return ok && u.Op == token.MUL && u.X == ssa.Value(cell)
+	}, token.EQL, isNilVal)
+	n := 0
+	if cell.Referrers() != nil {
+		for _, r := range *cell.Referrers() {
+			st, ok := r.(*ssa.Store)
+			if !ok || st.Addr != ssa.Value(cell) {
+				continue
+			}
+			if _, fresh := Strip(st.Val).(*ssa.MakeMap); !fresh {
+				continue
+			}
+			n++
+			c.Guarded(fmt.Sprintf("%s.updateDatabags#fresh-map-only-when-none#%d", pkg, n), ud, st, []Clause{{noState, wasNil}}, &GOpt{NoVacuity: true})
+		}
+	}
+	// what is stored is that map
+	stSet := P.FuncObj("overlord/state.(*State).Set")
+	okSet := false
+	for _, cc := range CallSites(ud, stSet) {
+		if k, ok := ConstString(CallArgs(cc)[0]); ok && k == "registry-databags" {
+			if u, ok := Strip(CallArgs(cc)[1]).(*ssa.UnOp); ok && u.X == ssa.Value(cell) {
+				okSet = true
+			}
+			if DependsOnLoad(CallArgs(cc)[1], cell) {
+				okSet = true
+			}
+		}
+	}
+	c.Check(okSet, pkg+".updateDatabags#writes-back-what-it-read", ud.Pos(), "st.Set(\"registry-databags\", databags) with the map that was read", "updateDatabags does not write back the map it read from the state")
+}
